@@ -58,6 +58,7 @@ fn build_db(_sub: bool) -> Arc<FixtureDatabase> {
     let db = Arc::new(FixtureDatabase::new());
     let p = |r: &str| PathBuf::from(format!("{}/{}", ROOT, r));
     db.plugin_fixture_files.insert(p("plug/p.py"), ());
+    db.plugin_fixture_files.insert(p(".venv/lib/python3.11/site-packages/tp/plugin.py"), ());
     db.analyze_file(p("conftest.py"), &conftest_text());
     db.analyze_file(p("zsib/conftest.py"), "import pytest\n\n@pytest.fixture\ndef sib_fix():\n    return 1\n");
     db.analyze_file(p("plug/p.py"), "import pytest\n\n@pytest.fixture\ndef p_fix():\n    return 1\n");
